@@ -276,7 +276,7 @@ fn btor2_rt(rng: &mut StdRng) -> (Vec<u8>, serde_json::Value) {
                 let c = cmts[rng.gen_range(0..cmts.len())];
                 let line = Line::Comment(c.into());
                 line.write_into(w);
-                expect.push(json!(["line", format!("{:?}", line)]));
+                expect.push(parsers::btor_line_json(&line));
                 continue;
             }
             let variant = match rng.gen_range(0..14) {
@@ -307,7 +307,7 @@ fn btor2_rt(rng: &mut StdRng) -> (Vec<u8>, serde_json::Value) {
             let comment = if rng.gen_range(0..3) == 0 { Some(cmts[rng.gen_range(0..cmts.len())]) } else { None };
             let line = Line::Node(Node { id: id(rng), variant, symbol: symbol.map(|s| s.into()), comment: comment.map(|s| s.into()) });
             line.write_into(w);
-            expect.push(json!(["line", format!("{:?}", line)]));
+            expect.push(parsers::btor_line_json(&line));
         }
     });
     (bytes, serde_json::Value::Array(expect))
